@@ -581,12 +581,12 @@ package fdo
 //@   sweep bounds,panic,make,nilmem,div
 //@   callsites NextServiceInfo 1
 //@   callsites Transition 1
-//@   callsites Encode 2
+//@   callsites Encode 1
 //@   callassert NextServiceInfo#1: @onlynew !prevActive
 //@   callassert NextServiceInfo#1: @key u(arg1) == u(moduleName) && u(arg2) == u("active")
 //@   callassert Transition#1: @changed arg1 != prevActive
-//@   callassert Encode#2: @unknown dyntype(mod, "serviceinfo.UnknownModule") && moduleName != "devmod" ==> !active
-//@   callassert Encode#2: @value u(unwrap(arg1)) == u(active)
+//@   callassert Encode#1: @unknown dyntype(mod, "serviceinfo.UnknownModule") && moduleName != "devmod" ==> !active
+//@   callassert Encode#1: @value u(unwrap(arg1)) == u(active)
 //@   ensures @unknown err == nil && !prevActive && dyntype(mod, "serviceinfo.UnknownModule") && moduleName != "devmod" ==> !result0
 //@   ensures @reported ? err == nil ==> result0 == active
 
